@@ -15,7 +15,7 @@ from ..steploop import StepLoop
 ID = 'C17'
 LEVEL = 'exploration'
 RULE = (
-    'cases = launcher configuration (persister: none | in-memory | pickle; loader: default | custom; tasks sent directly '
+    'cases = launcher configuration (persister: none | in-memory | pickle; loader: default | custom; load context given or not; tasks sent directly '
     'to the launcher or through LoopCommunicator(LocalCommunicator)) x history of <=12 operations create / launch / '
     'continue with persist / nowait / tag flags over four process classes (finishes, waits once, waits twice, fails), '
     'harness checkpoints of a waiting process under tags, resumes, and an unknown task type; the oracle is a model of '
@@ -43,7 +43,7 @@ TAGS = [None, 'a', 'b']
 
 
 def enumerate_cases(tier, scope):
-    configs = [(p, loader, via) for p in ('none', 'memory', 'pickle') for loader in ('default', 'custom') for via in ('direct', 'comm')]
+    configs = [(p, loader, via, lc) for p in ('none', 'memory', 'pickle') for loader in ('default', 'custom') for via in ('direct', 'comm') for lc in ('none', 'given')]
     singles = []
     for prog in PROGS:
         for persist in (False, True):
@@ -54,7 +54,7 @@ def enumerate_cases(tier, scope):
     if scope == 'single':
         for cfg in configs:
             for op in singles:
-                yield {'persister': cfg[0], 'loader': cfg[1], 'via': cfg[2], 'ops': [op]}
+                yield {'persister': cfg[0], 'loader': cfg[1], 'via': cfg[2], 'load_context': cfg[3], 'ops': [op]}
     else:
         firsts = [['launch', 'W2', 1, True, True], ['create', 'W', 1, True], ['launch', 'W', 1, False, False], ['create', 'F', 2, True]]
         seconds = [
@@ -69,7 +69,7 @@ def enumerate_cases(tier, scope):
         for cfg in configs:
             for first in firsts:
                 for second in seconds:
-                    yield {'persister': cfg[0], 'loader': cfg[1], 'via': cfg[2], 'ops': [first] + second}
+                    yield {'persister': cfg[0], 'loader': cfg[1], 'via': cfg[2], 'load_context': cfg[3], 'ops': [first] + second}
 
 
 @st.composite
@@ -95,6 +95,7 @@ def _cases(draw, tier):
         'persister': draw(st.sampled_from(['none', 'memory', 'memory', 'pickle'])),
         'loader': draw(st.sampled_from(['default', 'custom'])),
         'via': draw(st.sampled_from(['direct', 'comm'])),
+        'load_context': draw(st.sampled_from(['none', 'given'])),
         'ops': ops,
     }
 
@@ -145,7 +146,8 @@ def execute(case):
             persister = persistence.PicklePersister(tmpdir)
         loader = custom if case['loader'] == 'custom' else None
         with loop.as_running():
-            launcher = process_comms.ProcessLauncher(loop=loop, persister=persister, loader=loader)
+            load_context = persistence.LoadSaveContext(harness_note='given') if case.get('load_context') == 'given' else None
+            launcher = process_comms.ProcessLauncher(loop=loop, persister=persister, load_context=load_context, loader=loader)
             comm = None
             if case['via'] == 'comm':
                 comm = communications.LoopCommunicator(kiwipy.LocalCommunicator(), loop)
@@ -355,7 +357,7 @@ def execute(case):
         world.reset(None)
         shutil.rmtree(tmpdir, ignore_errors=True)
     nontrivial = bool(classes & {'continue', 'rejected', 'persisted'})
-    classes |= {'persister:' + case['persister'], 'loader:' + case['loader'], 'via:' + case['via']}
+    classes |= {'persister:' + case['persister'], 'loader:' + case['loader'], 'via:' + case['via'], 'load_context:' + case.get('load_context', 'none')}
     return {'violations': viol, 'nontrivial': nontrivial, 'classes': sorted(classes), 'history': {'config': [case['persister'], case['loader'], case['via']], 'ops': hist}}
 
 
